@@ -285,6 +285,23 @@ def check_interr_impls(ck, f, unit, label, expect_bad=False):
                 okv = [nonzero_argument(body, t, adts) for _, t in news]
                 good = not unchecked and news and all(o for o, _ in okv)
             found.append((key, good, unchecked, okv))
+            if not expect_bad and "io::Error" in fn.get("impl_self", "") and outs and not any(o.kind == "stuck" for o in outs):
+                # a non-zero OS code is encoded as itself; the substitute constant is used only when there is no code or it is 0
+                pres = True
+                for o in outs:
+                    if o.kind != "ret":
+                        continue
+                    r = sem.strip(o.ret)
+                    v = sem.strip(r[1]) if r[0] == "nz" else ("?",)
+                    raw = [e for e in o.calls("raw_os_error")]
+                    no_code = any(c[0] == "discr" and c[2] == "None" and sem.strip(c[1])[0] == "opq" and raw and sem.strip(c[1])[1] == raw[0][3] for c in o.conds)
+                    zero_code = any(c[0] == "eq" and c[2] == 0 and sem.strip(c[1])[0] == "pay" for c in o.conds)
+                    if v[0] == "const":
+                        pres = pres and (no_code or zero_code)
+                    else:
+                        pres = pres and v[0] == "pay" and v[2] == "Some" and raw and sem.strip(v[1])[0] == "opq" and sem.strip(v[1])[1] == raw[0][3]
+                ck.ob("N-os-code-preserved", key, pres, "%s does not encode every non-zero OS error code as itself: %s" % (fn["path"], [repr(o)[:140] for o in outs]),
+                      sample={"fn": fn["path"]})
             if not expect_bad:
                 ck.ob("N-encode-never-zero", key, good,
                       "%s (%s) can encode an error as 0 or panic: new_unchecked=%s, NonZeroI32::new operands=%s" % (fn["path"], fn["span"], unchecked, [w for _, w in okv]),
